@@ -132,7 +132,9 @@ func inputStreams(t *testing.T, st *report.Stats, sc streamCfg, fn func(stream s
 
 	dfGen := rapid.SampledFrom([]string{"", "", "dflt", "my field", `d"q`, "ü", "AND", "5"})
 	st.Rapid(t, "printed-trees", sc.trees, func(rt *rapid.T) {
-		tree := gen.GenTree(gen.ParseCfg).Draw(rt, "tree")
+		tcfg := gen.ParseCfg
+		tcfg.Vals.Hostile = rapid.Bool().Draw(rt, "hostile")
+		tree := gen.GenTree(tcfg).Draw(rt, "tree")
 		o := gen.Opts{Fill: gen.GenFill().Draw(rt, "fill"), Full: rapid.IntRange(0, 4).Draw(rt, "full") == 0}
 		if rapid.Bool().Draw(rt, "juxta") {
 			o.Juxta = map[int]bool{}
@@ -144,6 +146,32 @@ func inputStreams(t *testing.T, st *report.Stats, sc streamCfg, fn func(stream s
 		}
 		pr := gen.Print(tree, o)
 		if !fn("printed-trees", mkIn(gen.Join(pr.Toks, o), dfGen.Draw(rt, "df"), len(pr.Toks))) {
+			rt.Fatalf("violation")
+		}
+	})
+	st.Rapid(t, "single-term", sc.trees/4+1, func(rt *rapid.T) {
+		// the whole query is one term: a quoted phrase or an escaped word holding
+		// arbitrary bytes, optionally under one prefix / suffix operator or a field
+		var b []byte
+		if rapid.Bool().Draw(rt, "raw") {
+			b = rapid.SliceOfN(rapid.Byte(), 0, 12).Draw(rt, "bytes")
+		} else {
+			b = []byte(gen.GenHostileString(false).Draw(rt, "hs"))
+		}
+		var term string
+		if rapid.Bool().Draw(rt, "quoted") {
+			term = `"` + strings.ReplaceAll(string(b), `"`, "") + `"`
+		} else {
+			for _, c := range b {
+				term += "\\" + string([]byte{c})
+			}
+			if term == "" {
+				term = "w"
+			}
+		}
+		q := rapid.SampledFrom([]string{"%s", "%s", "f:%s", "NOT %s", "+%s", "-%s", "%s~", "%s^2", "(%s)", "f:[%s TO %s]", "f:(%s OR x)"}).Draw(rt, "shape")
+		q = strings.ReplaceAll(q, "%s", term)
+		if !fn("single-term", mkIn(q, dfGen.Draw(rt, "df"), 1)) {
 			rt.Fatalf("violation")
 		}
 	})
